@@ -2339,6 +2339,14 @@ impl Collection {
                 index.drop_data().await;
                 return Err(err);
             }
+            // Persist the backfilled index before it is registered: a later
+            // metadata write (`store_metadata_unclaimed`) can publish the
+            // registration ahead of the next flush, and a registered index
+            // whose durable objects are still empty is never backfilled again.
+            if let Err(err) = index.flush(now_ms).await {
+                index.drop_data().await;
+                return Err(err);
+            }
             if field.unique() {
                 self.btree_indexes.insert(0, index);
             } else {
@@ -2362,6 +2370,14 @@ impl Collection {
             .await?;
 
             if let Err(err) = self.backfill_btree_index(&index, now_ms).await {
+                index.drop_data().await;
+                return Err(err);
+            }
+            // Persist the backfilled index before it is registered: a later
+            // metadata write (`store_metadata_unclaimed`) can publish the
+            // registration ahead of the next flush, and a registered index
+            // whose durable objects are still empty is never backfilled again.
+            if let Err(err) = index.flush(now_ms).await {
                 index.drop_data().await;
                 return Err(err);
             }
@@ -2440,6 +2456,12 @@ impl Collection {
         .await?;
 
         if let Err(err) = self.backfill_bm25_index(&index, now_ms).await {
+            index.drop_data().await;
+            return Err(err);
+        }
+        // See `create_btree_index`: make the backfilled index durable before
+        // its registration can be published by any metadata write.
+        if let Err(err) = index.flush(now_ms).await {
             index.drop_data().await;
             return Err(err);
         }
@@ -2526,6 +2548,12 @@ impl Collection {
 
         let index = Hnsw::new(field, config, self.storage.clone(), now_ms).await?;
         if let Err(err) = self.backfill_hnsw_index(&index, now_ms).await {
+            index.drop_data().await;
+            return Err(err);
+        }
+        // See `create_btree_index`: make the backfilled index durable before
+        // its registration can be published by any metadata write.
+        if let Err(err) = index.flush(now_ms).await {
             index.drop_data().await;
             return Err(err);
         }
